@@ -128,3 +128,55 @@ M("C03", "B", "or instead of elif", INIT, "        if server_version == proposed
   "        if server_version == proposed_version or server_version in supported_versions:\n")
 M("C03", "B", "hoist logging", INIT, "        logging.debug(f\"Proposing MCP protocol version: {proposed_version}\")\n", "        pass\n")
 M("C03", "B", "rename server_version", INIT, "        server_version = str(init_result.protocolVersion)\n\n        if server_version == proposed_version:", "        server_version = sv = str(init_result.protocolVersion)\n\n        if sv == proposed_version:")
+
+# ------------------------------------------------------------------------------ C01
+_IDTEST = "        if msg_id != req_id:\n            logging.debug(\"[send_message] skip unmatched id=%s\", msg_id)\n            continue\n"
+_METHTEST = "        if msg_method is not None:\n            logging.debug(\"[send_message] skip non-response method=%s\", msg_method)\n            continue\n"
+M("C01", "V", "id test deleted", SENDMSG, _IDTEST, "", "R1")
+M("C01", "V", "method test deleted (pre-fix code)", SENDMSG, _METHTEST, "", "R1")
+M("C01", "V", "method test only skips notifications", SENDMSG, "        if msg_method is not None:\n            logging.debug(\"[send_message] skip non-response", "        if msg_method is not None and getattr(msg, \"id\", None) is None:\n            logging.debug(\"[send_message] skip non-response", "R1")
+M("C01", "V", "break on unmatched", SENDMSG, "            logging.debug(\"[send_message] skip unmatched id=%s\", msg_id)\n            continue\n", "            logging.debug(\"[send_message] skip unmatched id=%s\", msg_id)\n            break\n", "R3")
+M("C01", "V", "list test deleted", SENDMSG, "        if isinstance(msg, list):\n            continue\n", "", "R1")
+M("C01", "V", "second send", SENDMSG, "    await write_stream.send(message)\n", "    await write_stream.send(message)\n    if timeout > 30:\n        await write_stream.send(message)\n", "R2")
+M("C01", "V", "send after wait starts", SENDMSG, "    await write_stream.send(message)\n\n    with anyio.fail_after(timeout):\n        return await _await_response(",
+  "    with anyio.fail_after(timeout):\n        if not cancellation_token:\n            await write_stream.send(message)\n        return await _await_response(", "R2")
+M("C01", "V", "id compared as strings", SENDMSG, "        if msg_id != req_id:\n", "        if str(msg_id) != str(req_id):\n", "R1")
+M("C01", "V", "wait for a different id than sent", SENDMSG, "    message = create_request(method=method, params=params, id=req_id)\n", "    message = create_request(method=method, params=params, id=message_id)\n", "R2")
+M("C01", "V", "request drops params", SENDMSG, "    message = create_request(method=method, params=params, id=req_id)\n", "    message = create_request(method=method, params=None if not params else params.get(\"arguments\"), id=req_id)\n", "R2")
+M("C01", "V", "give up after idle polls with a default", SENDMSG, "        except TimeoutError:\n            continue  # let outer timer count down\n", "        except TimeoutError:\n            if sub_timeout > 5:\n                return {}\n            continue  # let outer timer count down\n", "R3")
+M("C01", "V", "returns whatever matched first of two ids", SENDMSG, "        if msg_id != req_id:\n", "        if msg_id != req_id and msg_id is not None:\n", "R1")
+M("C01", "V", "helper sends on swapped streams", TOOLS_SEND, "    response = await send_message(\n        read_stream=read_stream,\n        write_stream=write_stream,\n        method=MessageMethod.TOOLS_CALL,",
+  "    response = await send_message(\n        read_stream=write_stream,\n        write_stream=read_stream,\n        method=MessageMethod.TOOLS_CALL,", "R4")
+M("C01", "B", "rename locals", SENDMSG, "        msg_id = getattr(msg, \"id\", None)\n        if msg_id != req_id:\n            logging.debug(\"[send_message] skip unmatched id=%s\", msg_id)\n", "        got = getattr(msg, \"id\", None)\n        if got != req_id:\n            logging.debug(\"[send_message] skip unmatched id=%s\", got)\n")
+M("C01", "B", "nested if instead of continue", SENDMSG, "        if isinstance(msg, list):\n            continue\n\n        logging.debug(\"[send_message] matched response: %s\", msg.model_dump())\n        return _process_response(msg)\n",
+  "        if not isinstance(msg, list):\n            logging.debug(\"[send_message] matched response: %s\", msg.model_dump())\n            return _process_response(msg)\n")
+M("C01", "B", "list test moved first", SENDMSG, "        msg_method = getattr(msg, \"method\", None)\n        if (\n            progress_token", "        if isinstance(msg, list):\n            continue\n        msg_method = getattr(msg, \"method\", None)\n        if (\n            progress_token")
+M("C01", "B", "equality spelled the other way round", SENDMSG, "        if msg_id != req_id:\n", "        if not (req_id == msg_id):\n")
+
+# ------------------------------------------------------------------------------ C18
+M("C18", "V", "id test deleted", SENDMSG, _IDTEST, "", "R1")
+M("C18", "V", "method test deleted", SENDMSG, _METHTEST, "", "R1")
+M("C18", "B", "rename locals", SENDMSG, "        msg_id = getattr(msg, \"id\", None)\n        if msg_id != req_id:\n            logging.debug(\"[send_message] skip unmatched id=%s\", msg_id)\n", "        got = getattr(msg, \"id\", None)\n        if got != req_id:\n            logging.debug(\"[send_message] skip unmatched id=%s\", got)\n")
+
+# ------------------------------------------------------------------------------ C14
+M("C14", "V", "wait outside fail_after", SENDMSG, "    with anyio.fail_after(timeout):\n        return await _await_response(", "    if True:\n        return await _await_response(", "R1")
+M("C14", "V", "deadline from a different value", SENDMSG, "    with anyio.fail_after(timeout):\n        return await _await_response(", "    with anyio.fail_after(max(timeout, 60.0)):\n        return await _await_response(", "R1")
+M("C14", "V", "poll handler swallows everything", SENDMSG, "        except TimeoutError:\n            continue  # let outer timer count down\n", "        except BaseException:\n            continue  # let outer timer count down\n", "R2")
+M("C14", "V", "poll timeout handler covers the whole iteration", SENDMSG, "        try:\n            with anyio.fail_after(sub_timeout):\n                msg = await read_stream.receive()\n        except TimeoutError:\n            continue  # let outer timer count down\n",
+  "        try:\n            with anyio.fail_after(sub_timeout):\n                msg = await read_stream.receive()\n            await anyio.sleep(0)\n        except TimeoutError:\n            continue  # let outer timer count down\n", "R2")
+M("C14", "V", "check after receive", SENDMSG, "        # Check for cancellation\n        if cancellation_check:\n            await cancellation_check()\n\n        try:\n            with anyio.fail_after(sub_timeout):\n                msg = await read_stream.receive()\n        except TimeoutError:\n            continue  # let outer timer count down\n",
+  "        try:\n            with anyio.fail_after(sub_timeout):\n                msg = await read_stream.receive()\n        except TimeoutError:\n            continue  # let outer timer count down\n        if cancellation_check:\n            await cancellation_check()\n", "R3")
+M("C14", "V", "unbounded receive", SENDMSG, "            with anyio.fail_after(sub_timeout):\n                msg = await read_stream.receive()\n", "            if True:\n                msg = await read_stream.receive()\n", None)
+M("C14", "V", "caller overrides the poll interval with the timeout", SENDMSG, "            read_stream,\n            req_id,\n            cancellation_check=", "            read_stream,\n            req_id,\n            sub_timeout=timeout,\n            cancellation_check=", "R3")
+M("C14", "V", "cancel does not raise", SENDMSG, "            raise CancelledError(f\"Request {req_id} was cancelled\")\n", "            return\n", "R4")
+M("C14", "V", "cancel notification names another id", SENDMSG, "                    write_stream, req_id, \"Cancelled by client\"\n", "                    write_stream, message_id, \"Cancelled by client\"\n", "R4")
+M("C14", "V", "cancelled request still sent", SENDMSG, "    # Check for cancellation before sending\n    if cancellation_token:\n        await check_and_send_cancellation()\n\n    logging.debug(\"[send_message] sending %s\", method)\n    await write_stream.send(message)\n",
+  "    logging.debug(\"[send_message] sending %s\", method)\n    await write_stream.send(message)\n    if cancellation_token:\n        await check_and_send_cancellation()\n", "R4")
+M("C14", "V", "callback for any token", SENDMSG, "            if params.get(\"progressToken\") == progress_token:\n", "            if params.get(\"progressToken\"):\n", "R5")
+M("C14", "V", "no handler around callback", SENDMSG, "                try:\n                    await progress_callback(\n                        params.get(\"progress\", 0),\n                        params.get(\"total\"),\n                        params.get(\"message\"),\n                    )\n                except Exception as e:\n                    logging.error(f\"Error in progress callback: {e}\")\n                continue",
+  "                await progress_callback(\n                    params.get(\"progress\", 0),\n                    params.get(\"total\"),\n                    params.get(\"message\"),\n                )\n                continue", "R5")
+M("C14", "V", "callback handler re-raises", SENDMSG, "                    logging.error(f\"Error in progress callback: {e}\")\n", "                    logging.error(f\"Error in progress callback: {e}\")\n                    raise\n", "R5")
+M("C14", "V", "callback gets total twice", SENDMSG, "                        params.get(\"total\"),\n                        params.get(\"message\"),\n", "                        params.get(\"total\"),\n                        params.get(\"total\"),\n", "R5")
+M("C14", "V", "token sent differs from token awaited", SENDMSG, "        params[\"_meta\"][\"progressToken\"] = progress_token\n", "        params[\"_meta\"][\"progressToken\"] = str(uuid.uuid4())\n", "R5")
+M("C14", "B", "rename sub_timeout default kept", SENDMSG, "    sub_timeout: float = 0.5,\n", "    sub_timeout: float = 0.25,\n")
+M("C14", "B", "logging added before check", SENDMSG, "        # Check for cancellation\n        if cancellation_check:\n", "        logging.debug(\"poll\")\n        if cancellation_check:\n")
